@@ -157,3 +157,30 @@ M("C16", "default-step-exclusive", "geneticengine/algorithms/gp/gp.py", "    ret
 M("C16", "parallel-passes-slice", COMB, "                    iter(npopulation),\n                    end - start,", "                    iter(npopulation[start:]),\n                    end - start,", "C16.R4")
 M("C16", "twin-negated-key-no-reverse", HLP, "key=lambda x: x.get_fitness(problem).maximizing_aggregate, reverse=True)", "key=lambda x: -x.get_fitness(problem).maximizing_aggregate)", "", expect="silent")
 M("C16", "twin-sorted-inline", ELI, "new_population = sort_population(candidates, problem)", "new_population = sorted(candidates, key=lambda x: x.get_fitness(problem).maximizing_aggregate, reverse=True)", "", expect="silent")
+
+# ------------------------------------------------------------------------------------- C18
+SRC = "geneticengine/random/sources.py"
+GE = "geneticengine/representations/grammatical_evolution/ge.py"
+SGE = "geneticengine/representations/grammatical_evolution/structured_ge.py"
+DSGE = "geneticengine/representations/grammatical_evolution/dynamic_structured_ge.py"
+STK = "geneticengine/representations/stackgggp/__init__.py"
+INI = "geneticengine/representations/tree/initializations.py"
+M("C18", "ge-randint-width-off", GE, "return v % (max - min + 1) + min", "return v % (max - min + 2) + min", "C18.R1")
+M("C18", "sge-randint-no-offset", SGE, "return v % (max - min + 1) + min", "return v % (max - min + 1)", "C18.R1")
+M("C18", "stack-randint-exclusive", STK, "return v % (max - min + 1) + min", "return v % (max - min) + min", "C18.R1")
+M("C18", "dsge-randint-zero-modulus", DSGE, "return v % (max_int - min_int + 1) + min_int", "return v % (max_int - min_int) + min_int", "C18.R1")
+M("C18", "decider-wide-overflow", INI, "extra = pow(n, e) % (half + 1)", "extra = pow(n, e) % width", "C18.R1")
+M("C18", "decider-narrow-swapped", INI, "            return self.random.randint(min_int, max_int)", "            return self.random.randint(min_int, max_int + 1)", "C18.R1")
+M("C18", "native-float-scale", SRC, "return self.random.random() * (max - min) + min", "return self.random.random() * max + min", "C18.R2")
+M("C18", "ge-float-zero-div", GE, "k = self.randint(1, sys.maxsize)", "k = self.randint(0, sys.maxsize)", "C18.R2")
+M("C18", "choice-index-len", SRC, "i = self.randint(0, len(choices) - 1)", "i = self.randint(0, len(choices))", "C18.R3")
+M("C18", "choice-weighted-inclusive", SRC, "self.randint(0, max(total - 1, 0))", "self.randint(0, total)", "C18.R3")
+M("C18", "choice-weighted-loose-compare", SRC, "            if rand_value < acc:", "            if rand_value <= acc:", "C18.R3")
+M("C18", "shuffle-overwrite", SRC, "            lst[i], lst[j] = lst[j], lst[i]", "            lst[i] = lst[j]", "C18.R3")
+M("C18", "shuffle-index-range", SRC, "            j = self.randint(0, i)", "            j = self.randint(0, i + 1)", "C18.R3")
+M("C18", "pop-random-returns-other", SRC, "        lst[i], item = item, lst[i]\n", "        lst[i] = item\n", "C18.R3")
+M("C18", "pop-random-index", SRC, "        i = self.randint(0, total_len)\n", "        i = self.randint(0, total_len + 1)\n", "C18.R3")
+M("C18", "native-global-rng", SRC, "        return self.random.randint(min, max)", "        return random.randint(min, max)", "C18.R4")
+M("C18", "native-unseeded", SRC, "self.random = random.Random(seed)", "self.random = random.Random()", "C18.R4")
+M("C18", "twin-ge-randint-reordered", GE, "return v % (max - min + 1) + min", "return min + v % (1 + max - min)", "", expect="silent")
+M("C18", "twin-native-float", SRC, "return self.random.random() * (max - min) + min", "return min + (max - min) * self.random.random()", "", expect="silent")
